@@ -67,7 +67,7 @@ impl Part for WirePart {
         true
     }
     fn rule(&self) -> String {
-        "2..4 clients on a pool of 1..3 connections, transaction or session mode; histories of 3..14 steps over {statement held at the backend, release, BEGIN, COMMIT, socket drop (idle, inside a transaction, with a statement in flight), the pooler ending a transaction after idle_client_in_transaction_timeout (30% of the transaction-mode cases), CancelRequest with a client's exact key / same pid wrong secret / wrong pid same secret / random key}; the model tracks which backend connection each client currently borrows; oracle: after each CancelRequest has been fully processed (pgcat closed the cancel socket) the backends have received exactly one CancelRequest carrying that connection's own BackendKeyData if the key is exact and the client borrows a connection, and none otherwise. Non-trivial = a cancel sent while at least two clients had work in flight, or with the key of a client that no longer holds a connection".into()
+        "2..4 clients on a pool of 1..3 connections, transaction or session mode; histories of 3..14 steps over {statement held at the backend, release, BEGIN, COMMIT, socket drop (idle, inside a transaction, with a statement in flight), the pooler ending a transaction after idle_client_in_transaction_timeout (30% of the cases, both pool modes), CancelRequest with a client's exact key / same pid wrong secret / wrong pid same secret / random key}; the model tracks which backend connection each client currently borrows; oracle: after each CancelRequest has been fully processed (pgcat closed the cancel socket) the backends have received exactly one CancelRequest carrying that connection's own BackendKeyData if the key is exact and the client borrows a connection, and none otherwise. Non-trivial = a cancel sent while at least two clients had work in flight, or with the key of a client that no longer holds a connection".into()
     }
     fn cases(&self, tier: Tier) -> u64 {
         tier.pick(1_600, 20_000)
@@ -85,7 +85,7 @@ impl Part for WirePart {
         ];
         (2u8..=4, 1u8..=3, prop::bool::weighted(0.3), prop_oneof![Just(1u8), Just(2u8), Just(4u8)], prop::bool::weighted(0.3), prop::collection::vec(step, 3..15), (any::<u16>(), 0u8..4, 0u8..4))
             .prop_map(|(clients, pool_size, session_mode, workers, idle_timeout, steps, (at, k, other))| {
-                let idle_timeout = idle_timeout && !session_mode;
+                // (in session mode too: the pooler takes the server away from a client that stays connected)
                 // the step only exists where the timeout is configured
                 let mut steps: Vec<Step> = steps.into_iter().filter(|s| idle_timeout || !matches!(s, Step::IdleOut(_))).collect();
                 if idle_timeout {
